@@ -464,8 +464,11 @@ WITNESSES = [
     # stop_undrained_delivers: must stay LAST-but-listed; looked up by name below
     ("U", [0], [], "title", "s p.0.1 t d".split()),
     ("D", [0], [0], "title", "v.0.1 v.4.1 v.4.2 v.0.0 f.4.1 f.0.2 o.0.2 o.0.2 o.4.1".split()),
+    # the same status twice in a row from one updater, across a suppressed intermediate state
+    ("D", [0, 4], [], "title", "s p.0.1 k.4.1 p.0.2 r p.0.1".split()),
 ]
 UNDRAINED = WITNESSES[2]
+REPEAT = WITNESSES[4]
 
 
 def line_for(case):
@@ -560,6 +563,11 @@ def run(ctx, only=None):
         "history start, post, stop() and only then a drain (finer than the property's granularity): the real code "
         + ("DELIVERS the queued play status after stop(): %r" % after_stop if after_stop else "delivers nothing after stop()")
         + "; Lean: stop_undrained_delivers; with a drain before stop() nothing is delivered (silent_after_stop)")
+    res = execute(env, [REPEAT])[0]
+    ctx.notes["repeat_across_suppressed_state"] = (
+        "start, P0 posts 1, takeover by P4, P0 posts 2 (suppressed), release, P0 posts 1: the user's listener received %r "
+        "— the same status twice in a row from one updater; allowed under the reading 'differs from the state that "
+        "updater produced before' (see assumptions), not counted as a violation" % [list(e) for e in res["log"]])
     for batch in chunks(suite_a(ctx), 20000):
         evaluate(ctx, env, batch, "A")
     for batch in chunks(suite_b(ctx), 20000):
@@ -569,6 +577,23 @@ def run(ctx, only=None):
     n = ctx.scale(8000, 60000)
     maxlen = ctx.scale(10, 16)
     for batch in chunks((random_case(rng, maxlen) for _ in range(n)), 20000):
+        evaluate(ctx, env, batch, "C")
+
+
+def widen(ctx):
+    """Used when a proof or the correspondence broke without a failing input: suites A (quick bounds),
+    B (thorough bounds) and a large random suite C."""
+    env = _Env()
+    evaluate(ctx, env, WITNESSES, "witness")
+    ctx.widened = False
+    a_cases = list(suite_a(ctx))
+    ctx.widened = True
+    for batch in chunks(a_cases, 20000):
+        evaluate(ctx, env, batch, "A")
+    for batch in chunks(suite_b(ctx), 20000):
+        evaluate(ctx, env, batch, "B")
+    rng = ctx.rng.fork("suite-c-widened")
+    for batch in chunks((random_case(rng, 16) for _ in range(40000)), 20000):
         evaluate(ctx, env, batch, "C")
 
 
@@ -603,6 +628,8 @@ def shrink(ctx, failure):
         changed = False
         for i in range(len(cur)):
             cand = cur[:i] + cur[i + 1:]
+            if mode == "U" and (not cand or cand[-1] != "d"):
+                continue        # a mode-U history ends with a drain
             r = fails(cand)
             if r is not None:
                 cur, best, changed = cand, r, True
